@@ -809,8 +809,8 @@ def n_runs(tier):
 
 
 def pool_size():
-    """16 workers on an idle machine, fewer when it is already oversubscribed."""
-    n = min(16, os.cpu_count() or 1)
+    """at most 8 worker processes (shared machine), fewer when it is already oversubscribed."""
+    n = min(8, os.cpu_count() or 1)
     try:
         if os.getloadavg()[0] > n:
             n = max(4, n // 2)
